@@ -247,6 +247,33 @@ where
 
         let mls_signer = self.load_mls_signer(mls_group)?;
 
+        // The automatic commit carries out members' own requests to leave and nothing else.
+        // Whatever else is queued (Add / Remove proposals of other members, which any member
+        // can send) is not approved by anybody here: it is taken out of the queue, so that it
+        // does not ride along. (Proposals are bound to their epoch: the commit voids them
+        // for everybody anyway.) With a commit of our own pending, no commit can be created
+        // and the queue is left as it is.
+        if mls_group.pending_commit().is_none() {
+            let not_a_leave: Vec<_> = mls_group
+                .pending_proposals()
+                .filter(|queued| {
+                    !matches!(
+                        (queued.proposal(), queued.sender()),
+                        (Proposal::Remove(remove), Sender::Member(sender))
+                            if remove.removed() == *sender
+                    )
+                })
+                .map(|queued| queued.proposal_reference_ref().clone())
+                .collect();
+            for proposal_ref in not_a_leave {
+                mls_group
+                    .remove_pending_proposal(self.provider.storage(), &proposal_ref)
+                    .map_err(|_e| {
+                        Error::Message("Failed to remove pending proposal".to_string())
+                    })?;
+            }
+        }
+
         // Self-remove proposals never generate welcomes (only Add proposals do),
         // so we can safely ignore the welcome output here
         let (commit_message, _welcomes, _group_info) =
